@@ -57,6 +57,9 @@ class _RabbitConsumer(ConsumerT):
                 )
             except asyncio.CancelledError:
                 # if we got cancellation while waiting on our tasks - cancel the tasks
+                if get_task.done() and not get_task.cancelled():
+                    # message was already taken out of the buffer: put it back, so it isn't lost
+                    self.queue.put_nowait(get_task.result())
                 get_task.cancel()
                 server_side_cancel_wait_task.cancel()
                 raise
